@@ -208,6 +208,7 @@ type Report struct {
 	WallS        float64                `json:"wall_s"`
 	Nontrivial   int                    `json:"nontrivial_obligations"`
 	GoStatements int                    `json:"go_statements_skipped"`
+	GoSites      map[string]int         `json:"go_sites,omitempty"`
 }
 
 type PathSample struct {
@@ -230,6 +231,7 @@ type PathResult struct {
 	overread  bool
 	trace     []string
 	goCount   int
+	goSites   map[string]int
 }
 
 func decStr(d []bool) string {
@@ -350,17 +352,24 @@ func (eng *Engine) runPath(cfg *RunConfig, prefix []bool, z3 *SolverProc) (res *
 		res.overread = ex.overread
 		res.trace = ex.trace
 		res.goCount = ex.goCount
+		res.goSites = ex.goSites
 	}
 	defer func() {
 		if r := recover(); r != nil {
 			switch r := r.(type) {
 			case pathAbort:
 				res.status, res.msg = r.status, r.msg
-			case goPanic:
-				// a panic escaped the harness: implicit assertion
+			case goPanic, goCrash:
+				// a panic escaped the harness (or killed the process from a spawned goroutine): implicit assertion
 				res.status = "panic"
 				msg := "?"
-				if iv, ok := r.val.(IfaceV); ok {
+				var pv Value
+				if gp, ok := r.(goPanic); ok {
+					pv = gp.val
+				} else {
+					pv = r.(goCrash).val
+				}
+				if iv, ok := pv.(IfaceV); ok {
 					switch v := iv.v.(type) {
 					case OpaqueV:
 						msg = v.tag
@@ -452,6 +461,12 @@ func (eng *Engine) Explore(cfg *RunConfig) *Report {
 				rep.Decisions += int64(len(pr.decisions))
 				rep.Steps += pr.steps
 				rep.GoStatements += pr.goCount
+				for k, v := range pr.goSites {
+					if rep.GoSites == nil {
+						rep.GoSites = map[string]int{}
+					}
+					rep.GoSites[k] += v
+				}
 				if pr.overread {
 					rep.Overreads++
 				}
